@@ -1158,6 +1158,45 @@ package seccomp
 //@ global kflags ghost:(_ BitVec 64)
 //@ global ka3 ghost:(_ BitVec 64)
 
+// ---- from the instruction list to what the kernel runs (C05 "encodes without error", C08 hand-over) ----
+// a closed program consists of instructions that can be encoded and on which S-std and the kernel semantics of the raw
+// form agree
+//@ lemma closedStd(R []bpf.Instruction)
+//@   ensures closed(R) ==> forall(i, 0, len(R), stdInsn(R[i]) && encodable(R[i]) && (istype(R[i], bpf.RetConstant) || istype(R[i], bpf.Jump) || istype(R[i], bpf.LoadAbsolute) || istype(R[i], bpf.JumpIf)), trig(R[i]))
+// one unfolding of the kernel semantics on the sock_filter array at an explicit position
+//@ lemma runSFStep(sf []syscall.SockFilter, pc int, A uint32)
+//@   ensures pc == len(sf) && pc >= 0 ==> runSF(sf, pc, A) == Fall(A)
+//@   ensures pc < 0 || pc > len(sf) ==> runSF(sf, pc, A) == Stuck
+//@   ensures 0 <= pc && pc < len(sf) && sf[pc].Code == 6 ==> runSF(sf, pc, A) == Ret(sf[pc].K)
+//@   ensures 0 <= pc && pc < len(sf) && sf[pc].Code == 32 ==> runSF(sf, pc, A) == runSF(sf, pc + 1, word(ev, sf[pc].K))
+//@   ensures 0 <= pc && pc < len(sf) && sf[pc].Code == 5 ==> runSF(sf, pc, A) == runSF(sf, pc + 1 + w2i(sf[pc].K), A)
+//@   ensures 0 <= pc && pc < len(sf) && (sf[pc].Code == 21 || sf[pc].Code == 37 || sf[pc].Code == 53 || sf[pc].Code == 69) ==> runSF(sf, pc, A) == runSF(sf, pc + 1 + ite(sfTest(sf[pc].Code, A, sf[pc].K), sf[pc].Jt, sf[pc].Jf), A)
+//@ lemma runOut(prog []bpf.Instruction, pc int, A uint32)
+//@   ensures pc < 0 || pc > len(prog) ==> run(prog, pc, A) == Stuck
+// THE hand-over theorem of C08: the sock_filter array that is, element by element, the raw form of the instruction list
+// runs under the kernel's semantics exactly like the instruction list under S-std, from every position; by induction
+// on the distance to the end (forward jumps only)
+//@ macro jT(insts, pc) = pc + 1 + unbox(insts[pc], bpf.JumpIf).SkipTrue
+//@ macro jF(insts, pc) = pc + 1 + unbox(insts[pc], bpf.JumpIf).SkipFalse
+//@ macro jA(insts, pc) = pc + 1 + w2i(unbox(insts[pc], bpf.Jump).Skip)
+//@ lemma sfRunInd(insts []bpf.Instruction, raw []bpf.RawInstruction, sf []syscall.SockFilter, pc int, A uint32)
+//@   requires handedOver(insts, raw, sf) && 0 <= pc && pc <= len(insts)
+//@   decreases len(insts) - pc
+//@   opaque run runSF
+//@   use runStep(insts, pc, A)
+//@   use runSFStep(sf, pc, A)
+//@   use sfRunInd(insts, raw, sf, pc + 1, word(ev, unbox(insts[pc], bpf.LoadAbsolute).Off)) when pc < len(insts) && istype(insts[pc], bpf.LoadAbsolute)
+//@   use sfRunInd(insts, raw, sf, jT(insts, pc), A) when pc < len(insts) && istype(insts[pc], bpf.JumpIf) && jT(insts, pc) <= len(insts)
+//@   use sfRunInd(insts, raw, sf, jF(insts, pc), A) when pc < len(insts) && istype(insts[pc], bpf.JumpIf) && jF(insts, pc) <= len(insts)
+//@   use sfRunInd(insts, raw, sf, jA(insts, pc), A) when pc < len(insts) && istype(insts[pc], bpf.Jump) && jA(insts, pc) <= len(insts)
+//@   use runOut(insts, jT(insts, pc), A) when pc < len(insts) && istype(insts[pc], bpf.JumpIf)
+//@   use runOut(insts, jF(insts, pc), A) when pc < len(insts) && istype(insts[pc], bpf.JumpIf)
+//@   use runOut(insts, jA(insts, pc), A) when pc < len(insts) && istype(insts[pc], bpf.Jump)
+//@   use runSFStep(sf, jT(insts, pc), A) when pc < len(insts) && istype(insts[pc], bpf.JumpIf)
+//@   use runSFStep(sf, jF(insts, pc), A) when pc < len(insts) && istype(insts[pc], bpf.JumpIf)
+//@   use runSFStep(sf, jA(insts, pc), A) when pc < len(insts) && istype(insts[pc], bpf.Jump)
+//@   ensures runSF(sf, pc, A) == run(insts, pc, A)
+
 //@ func sockFilter(raw []bpf.RawInstruction) []syscall.SockFilter   properties C08
 //@   ensures @len {C08} len(result) == len(raw) && own(result)
 //@   ensures @elems {C08} forall(i, 0, len(raw), result[i].Code == raw[i].Op && result[i].Jt == raw[i].Jt && result[i].Jf == raw[i].Jf && result[i].K == raw[i].K)
@@ -1199,7 +1238,7 @@ package seccomp
 //@   ensures @probe {C09} ghost.nseccomp == old(ghost.nseccomp) + 1 && ghost.kop == 0 && ghost.kflags != 0
 
 //@ func LoadFilter(filter Filter) error   properties C08 C09 C10 C11
-//@   opaque closed strictClosed subBlock retsActUpTo run polRel polDone groupMatchesN groupValidN
+//@   opaque closed strictClosed subBlock retsActUpTo run polRel polDone groupMatchesN groupValidN runSF infoInj retsPolicy decisionRel
 //@   requires @api_groups forall(i, 0, len(filter.Policy.Syscalls), filter.Policy.Syscalls[i].arch == nil)
 //@   requires @fresh_filter ghost.att == noThreads
 //@   modifies ghost.att, ghost.nseccomp, ghost.kop, ghost.kflags, ghost.ka3, ghost.strict, ghost.nnp, ghost.nprctl, ghost.locked, ghost.cur, ghost.anycur
@@ -1210,6 +1249,14 @@ package seccomp
 //@   ghost ghost.cur = ite(ghost.locked, ghost.cur, ghost.anycur) at before call seccomp#1
 //@   assert @nnp_before_install {C11} filter.NoNewPrivs ==> ghost.nnp[ghost.cur] at before call seccomp#1
 //@   assert @handover {C08} nonnil(program) && program.Len == len(sockFilter) && len(sockFilter) == len(insts) && nonnil(program.Filter) && *program.Filter == sockFilter[0] && forall(i, 0, len(insts), encodes(insts[i], raw[i])) && forall(i, 0, len(insts), sockFilter[i].Code == raw[i].Op && sockFilter[i].Jt == raw[i].Jt && sockFilter[i].Jf == raw[i].Jf && sockFilter[i].K == raw[i].K) at before call seccomp#1
+// C05: the compiled program always encodes (the error return after bpf.Assemble is dead code for compiled policies);
+// C08: the array handed to the kernel runs, under the kernel's semantics of sock_filter programs (runSF), like the
+// compiled instruction list under S-std (theorem sfRunInd), hence decides every event as the policy says
+//@   use closedStd(insts) at after assign insts#1
+//@   assert @encodes_ok {C05 C08} err == nil at after assign raw#1
+//@   use sfRunInd(insts, raw, sockFilter, 0, Astart) at before call seccomp#1
+//@   assert @kernel_runs {C08} runSF(sockFilter, 0, Astart) == run(insts, 0, Astart) at before call seccomp#1
+//@   assert @kernel_decides {C08} policyListsNonEmpty(filter.Policy.Syscalls) ==> decisionRel(*filter.Policy.arch, filter.Policy.DefaultAction, filter.Policy.Syscalls, runSF(sockFilter, 0, Astart)) at before call seccomp#1
 //@   ensures @in_force {C08 C09} result == nil ==> ghost.att[ghost.cur] && (filter.Flag & 1 != 0 ==> ghost.att == allThreads)
 //@   ensures @refused {C09} ghost.att != noThreads ==> result == nil
 //@   ensures @one_seccomp {C09 C10} result == nil ==> ghost.nseccomp == old(ghost.nseccomp) + 1 && ghost.kop == 1 && ghost.kflags == zext64(filter.Flag)
